@@ -308,4 +308,6 @@ CONTRACTS = [
              BT.configs, BT.case, [('every_collection_equals_the_stored_links_and_both_ends_agree', BT.spec)], level='bounded', bound=BT.BOUND),
     Contract('refused_delete_leaves_both_ends', ['pony.orm.core:Entity._delete_', 'pony.orm.core:Attribute.__set__', 'pony.orm.core:Set.reverse_remove', 'pony.orm.core:Set.__set__'],
              RF.configs, RF.case, [('both_ends_are_as_before_the_refused_delete', RF.spec)], level='bounded', bound=RF.BOUND),
+    Contract('symmetric_relationships', ['pony.orm.core:Attribute.__set__', 'pony.orm.core:Attribute.update_reverse', 'pony.orm.core:SetInstance.add', 'pony.orm.core:SetInstance.remove', 'pony.orm.core:Set.__set__'],
+             RF.sym_configs, RF.sym_case, [('both_ends_agree_with_the_links_made', RF.spec)], level='bounded', bound=RF.BOUND_SYM),
 ]
